@@ -197,6 +197,27 @@ def c05_pipeline(ch, build):
         s = base(70); s["steps"] = [hs.open_step(suites=[su])] + [
             {"op": "cmd", "conn": "session", "cmd": {"name": "getdeviceid"}, "script": [mu, "ok"]} for mu in ms[i:i + 40]]
         scns.append(s)
+    # termination without a deadline: the caller's context never ends by itself and the back-off policy gives up after N
+    # retries; a peer that answers every attempt with a well-formed temporary code (or garbage) must not keep the loop going
+    bounded = []
+    for nmax in (1, 3, 5):
+        for act in ("busy", "c3", "garbage", "busy,c3", "truncpayload:3"):
+            script = (act.split(",") * 60)[:60]
+            for cn in ("sessionless", "session"):
+                s = base(71); s["backoff_max_retries"] = nmax; s["bounded"] = nmax
+                s["steps"] = ([hs.open_step(suites=[su])] if cn == "session" else []) + [
+                    {"op": "cmd", "conn": cn, "cmd": {"name": "getsystemguid"}, "script": script, "cancel_ms": 4000}]
+                bounded.append(s)
+    for s, o in zip(bounded, run_scenarios(bounded)):
+        st, res = s["steps"][-1], o["steps"][-1]
+        ch.note_case("pipeline-bounded-policy", "%s|%s|%d" % (st["conn"], st["script"][:2], s["bounded"]))
+        desc = {"kind": "pipeline", "op": "bounded-policy", "conn": st["conn"]}
+        if res.get("panic") or res["err"] == "panic":
+            ch.violation(desc, {"scenario": s, "panic": res.get("panic")})
+        elif len(res["sent"]) > s["bounded"] + 1 or res["err"] == "nil" or res.get("runaway"):
+            ch.violation(desc, {"scenario": s, "transmissions": len(res["sent"]), "err": res["err"], "elapsed_ms": res.get("elapsed_ms"),
+                                "what": "the retry policy gives up after %d retries and the context has no deadline: the call must end after at most "
+                                        "%d transmissions with an error; it went on" % (s["bounded"], s["bounded"] + 1)})
     outs = run_scenarios(scns)
     hs_lines, hidx = [], []
     for scn, out in zip(scns, outs):
@@ -240,6 +261,20 @@ def c17_connection(ch, build):
                     "steps": pre + [{"op": "cmd", "conn": cn, "cmd": a, "script": sa}, {"op": "cmd", "conn": cn, "cmd": b, "script": ["ok"]}]}
             alone = {"bmc": both["bmc"], "timeout_ms": 40, "steps": pre + [{"op": "cmd", "conn": cn, "cmd": b, "script": ["ok"]}]}
             scns += [both, alone]; meta.append((session, a, b))
+    # the same COMMAND VALUE sent again (the polling idiom: one ipmi.Command per sensor, re-sent for ever): what the second
+    # call leaves in the response layer must not depend on the first - also when the BMC refuses the second call with a
+    # permanent completion code and an untruncated body, or the second reply is short
+    for session in (False, True):
+        cn = "session" if session else "sessionless"
+        for k, b in enumerate(STATELESS):
+            su = hist.SUITES[k % 9]
+            pre = [hs.open_step(suites=[su])] if session else []
+            for second in (["ccfull:%d" % rng.choice([0xc1, 0xc9, 0xcc, 0xd4, 0xd5, 0xff])], ["ccfull:203"], ["ok"], ["busy", "ccfull:213"]):
+                both = {"bmc": default_bmc(seed=400 + k, suites=[[100, su[0], su[1], su[2]]], loose=True), "timeout_ms": 40,
+                        "steps": pre + [{"op": "cmd", "conn": cn, "cmd": b, "script": ["ok"]},
+                                        {"op": "cmd", "conn": cn, "cmd": b, "script": second, "reuse": True}]}
+                alone = {"bmc": both["bmc"], "timeout_ms": 40, "steps": pre + [{"op": "cmd", "conn": cn, "cmd": b, "script": second}]}
+                scns += [both, alone]; meta.append((session, dict(b, reused=True), b))
     outs = run_scenarios(scns)
     for k, (session, a, b) in enumerate(meta):
         ob, oa = outs[2 * k], outs[2 * k + 1]
